@@ -17,7 +17,8 @@ RULE = ('random multi-trajectory sets over all label alphabets with disjoint non
         'disjoint non-empty (S,F). Compared: waiting-time list in order, pathway dictionary (keys as '
         'sets, per-key times in occurrence order), error kinds. Non-trivial: >= 1 closed event and '
         '>= 1 frame outside both basins.'
-        ' Added classes: narrow integer arrays with > 127/255 frames, zero-length member trajectories, > 256 trajectories / > 2^16 frames / > 64..260 states, other memory layouts, a LumpedStateTraj whose macro trajectories are the input.')
+        ' Added classes: narrow integer arrays with > 127/255 frames, zero-length member trajectories, > 256 trajectories / > 2^16 frames / > 64..260 states, other memory layouts, a LumpedStateTraj whose macro trajectories are the input.'
+        ' Later: 40..60 sparsely labelled states with basins of ~20 labels on short trajectories, long excursions over 6..12 labels (interleaving loops), basin labels outside the range of a narrow array type (rejected as absent), the other analysis run on the same object first, reused containers.')
 TRUSTED = ['numba typed List/Dict conversion exercised, not modelled']
 ASSUMPTIONS = ['labels within +-2^29']
 BATCH = 6000
